@@ -264,32 +264,47 @@ func (t *Total) Clone() *Total {
 	nt := new(Total)
 	nt.Categories = make([]*CategoryTotal, len(t.Categories))
 	for i, ct := range t.Categories {
-		nt.Categories[i] = new(CategoryTotal)
-		nt.Categories[i].Code = ct.Code
-		nt.Categories[i].Retained = ct.Retained
-		nt.Categories[i].Amount = ct.Amount
-		nt.Categories[i].amount = ct.amount
-		nt.Categories[i].Surcharge = ct.Surcharge
-		nt.Categories[i].Rates = make([]*RateTotal, len(ct.Rates))
-		for j, rt := range ct.Rates {
-			nt.Categories[i].Rates[j] = new(RateTotal)
-			nt.Categories[i].Rates[j].Key = rt.Key
-			nt.Categories[i].Rates[j].Country = rt.Country
-			nt.Categories[i].Rates[j].Ext = rt.Ext
-			nt.Categories[i].Rates[j].Base = rt.Base
-			nt.Categories[i].Rates[j].Percent = rt.Percent
-			nt.Categories[i].Rates[j].Amount = rt.Amount
-			if rt.Surcharge != nil {
-				nt.Categories[i].Rates[j].Surcharge = &RateTotalSurcharge{
-					Percent: rt.Surcharge.Percent,
-					Amount:  rt.Surcharge.Amount,
-				}
-			}
-		}
+		nt.Categories[i] = ct.clone()
 	}
 	nt.Sum = t.Sum
 	nt.sum = t.sum
 	return nt
+}
+
+// clone provides an independent copy of the category total and its rates.
+func (ct *CategoryTotal) clone() *CategoryTotal {
+	nct := new(CategoryTotal)
+	nct.Code = ct.Code
+	nct.Retained = ct.Retained
+	nct.Amount = ct.Amount
+	nct.amount = ct.amount
+	if ct.Surcharge != nil {
+		s := *ct.Surcharge
+		nct.Surcharge = &s
+	}
+	nct.Rates = make([]*RateTotal, len(ct.Rates))
+	for i, rt := range ct.Rates {
+		nct.Rates[i] = rt.clone()
+	}
+	return nct
+}
+
+// clone provides an independent copy of the rate total.
+func (rt *RateTotal) clone() *RateTotal {
+	nrt := new(RateTotal)
+	nrt.Key = rt.Key
+	nrt.Country = rt.Country
+	nrt.Ext = rt.Ext
+	nrt.Base = rt.Base
+	nrt.Percent = rt.Percent
+	nrt.Amount = rt.Amount
+	if rt.Surcharge != nil {
+		nrt.Surcharge = &RateTotalSurcharge{
+			Percent: rt.Surcharge.Percent,
+			Amount:  rt.Surcharge.Amount,
+		}
+	}
+	return nrt
 }
 
 // Merge will combine two totals objects into a new one, summing up the values
@@ -310,15 +325,11 @@ func (t *Total) Merge(t2 *Total) *Total {
 			}
 		}
 		if catTotal == nil {
-			catTotal = new(CategoryTotal)
-			catTotal.Code = ct.Code
-			catTotal.Retained = ct.Retained
-			catTotal.Amount = ct.Amount
-			catTotal.amount = ct.amount
-			catTotal.Surcharge = ct.Surcharge
-			catTotal.Rates = append(catTotal.Rates, ct.Rates...)
+			catTotal = ct.clone()
 			nt.Categories = append(nt.Categories, catTotal)
 		} else {
+			pa := ct.PreciseAmount()
+			catTotal.amount = catTotal.PreciseAmount().MatchPrecision(pa).Add(pa)
 			catTotal.Amount = catTotal.Amount.Add(ct.Amount)
 			if ct.Surcharge != nil {
 				ns := *ct.Surcharge
@@ -339,19 +350,7 @@ func (t *Total) Merge(t2 *Total) *Total {
 					}
 				}
 				if rateTotal == nil {
-					rateTotal = new(RateTotal)
-					rateTotal.Key = rt.Key
-					rateTotal.Country = rt.Country
-					rateTotal.Ext = rt.Ext
-					rateTotal.Base = rt.Base
-					rateTotal.Percent = rt.Percent
-					if rt.Surcharge != nil {
-						rateTotal.Surcharge = &RateTotalSurcharge{
-							Percent: rt.Surcharge.Percent,
-							Amount:  rt.Surcharge.Amount,
-						}
-					}
-					rateTotal.Amount = rt.Amount
+					rateTotal = rt.clone()
 					catTotal.Rates = append(catTotal.Rates, rateTotal)
 				} else {
 					// Merge the amounts
@@ -366,8 +365,9 @@ func (t *Total) Merge(t2 *Total) *Total {
 	}
 
 	// Merge the sum
+	ps := t2.PreciseSum()
+	nt.sum = nt.PreciseSum().MatchPrecision(ps).Add(ps)
 	nt.Sum = nt.Sum.Add(t2.Sum)
-	nt.sum = nt.sum.Add(t2.sum)
 
 	return nt
 }
